@@ -159,8 +159,11 @@ func derefPtr(t reflect.Type, v reflect.Value) (reflect.Type, reflect.Value, ref
 func assertReflect(x any) (at reflect.Type, av reflect.Value) {
 	switch tv := x.(type) {
 	case reflect.Value:
-		at = tv.Type()
-		av = tv
+		// the zero Value (e.g. a dereferenced nil
+		// pointer) has no type to speak of
+		if av = tv; tv.IsValid() {
+			at = tv.Type()
+		}
 	default:
 		at = typOf(tv)
 		av = valOf(tv)
